@@ -35,7 +35,8 @@ Section Expr.
   | ESub (q : Q)                                         (* row-scoped subquery *)
   | EExists (q : Q)
   | EAgg (f : aggfn) (arg : option (list string))        (* COUNT( * ) = None; otherwise a column path *)
-  | ECall (qual name : string) (args : list expr).       (* [QUALIFIER.]NAME(args) *)
+  | ECall (qual name : string) (args : list expr)        (* [QUALIFIER.]NAME(args) *)
+  | ETuple (items : list expr).                          (* value tuple (a, b, …) used as a VALUE: sqlparser.ValTuple *)
 
   Inductive sel_item :=
   | IStar
@@ -69,7 +70,7 @@ Arguments ECol {Q}. Arguments ENum {Q}. Arguments EStr {Q}. Arguments EBool {Q}.
 Arguments EAnd {Q}. Arguments EOr {Q}. Arguments ENot {Q}. Arguments ECmp {Q}. Arguments ELike {Q}.
 Arguments EIn {Q}. Arguments EInSub {Q}. Arguments EBetween {Q}. Arguments EIs {Q}. Arguments EBin {Q}.
 Arguments EUn {Q}. Arguments ECase {Q}. Arguments ESub {Q}. Arguments EExists {Q}. Arguments EAgg {Q}.
-Arguments ECall {Q}.
+Arguments ECall {Q}. Arguments ETuple {Q}.
 Arguments IStar {Q}. Arguments IExpr {Q}.
 Arguments FDual {Q}. Arguments FTable {Q}. Arguments FTableFn {Q}. Arguments FDerived {Q}. Arguments FJoin {Q}.
 Arguments Build_select {Q}.
